@@ -16,8 +16,6 @@ import (
 	peer_store "github.com/anacrolix/dht/v2/peer-store"
 )
 
-func verifDecodeMsg(b []byte) (krpc.Msg, bool)
-
 type verifDatagram struct {
 	b    []byte
 	n    int // reported length; <0: len(b)
